@@ -50,6 +50,12 @@ def run(ctx, rep):
     rep.rule('R01.8', 'a result outside the integer range is an error, not a wrapped value: integers are encoded only through the checked constructor or from range-checked values')
     from rules import shared as _shared
     _shared.check_int_encoder_range(ctx, rep, 'R01.8')
+    rep.rule('R01.9', 'a type error stays a type error on every path, fast paths included: a value is decoded only as what it is: every as_int / as_bool / as_function is preceded on every path by a test that the object has that tag (the decoders only shift the word: `ja` would read as 1, null as 0)')
+    from rules import unsafe_inv as _ui
+    _ui.check_immediates(ctx, rep, 'R01.9')
+    rep.rule('R01.10', 'a name means the declaration that is visible where it stands: the lookup answers from the scope structure as it is now (state it reads besides, such as a cache of answers, is kept in step by every method that changes the structure)')
+    from rules import c09 as _c09
+    _c09.check_memo(ctx, rep, 'R01.10')
     check_pipeline(ctx, rep, 'R01.1')
     # ---- chain ---------------------------------------------------------------------------------
     lt = tables.lexer_table(ctx)['table']
